@@ -192,6 +192,7 @@ class Weaver:
         assumed = False
         extra_attrs = ''
         vis = None
+        r14 = None
         for o in args[2:]:
             if o.startswith('ret='):
                 ret = o[4:]
@@ -201,6 +202,8 @@ class Weaver:
                 extra_attrs = o[6:]
             elif o.startswith('vis='):
                 vis = o[4:]
+            elif o.startswith('r14='):
+                r14 = o[4:]
         src = self.source(rel)
         it = src.find_fn(qual)
         rec = FnRecord()
@@ -230,7 +233,7 @@ class Weaver:
         if assumed:
             out.append(indent + '{ unimplemented!() }')
             return out, rec
-        body = ex.rewrite_body(it.body, log)
+        body = ex.rewrite_body(it.body, log, r14)
         # insertion list: (offset, text)
         ins = []
         heads = None
@@ -238,6 +241,14 @@ class Weaver:
             text = '\n'.join(txt).rstrip('\n')
             if kind == 'entry':
                 ins.append((0, '\n' + text))
+            elif kind == 'exit':
+                span = ex.tail_expr_span(body)
+                if span is None:
+                    # unit function: hint goes at the very end
+                    ins.append((len(body.rstrip()), '\n' + text + '\n'))
+                else:
+                    ins.append((span[0], 'let ret__ = '))
+                    ins.append((span[1], ';\n' + text + '\n' + indent + '    ret__'))
             elif kind == 'loop':
                 if heads is None:
                     heads = ex.loop_heads(body)
